@@ -220,6 +220,8 @@ def _cstr(c):
 def _astr(a):
     if isinstance(a, str):
         return a
+    if isinstance(a, tuple) and len(a) == 7 and a[0] == 'count':
+        return 'count(%s,%s,%s)' % a[1:4]
     if isinstance(a, tuple) and a:
         return '%s(%s)' % (a[0], ','.join(
             (repr(x) if isinstance(x, Poly) else _astr(x)) for x in a[1:]))
@@ -243,6 +245,7 @@ def _akey(a):
 
 _DEPTH = {}
 _DEEP = {}
+_DEEP_SRC = {}     # ('deep', name, k) -> the atom it stands for
 MAX_ATOM_DEPTH = 4
 
 
@@ -333,6 +336,7 @@ def fn_atom(name, *args):
         k = _akey(atom)
         if k not in _DEEP:
             _DEEP[k] = ('deep', name, len(_DEEP))
+            _DEEP_SRC[_DEEP[k]] = atom
         return Poly.sym(_DEEP[k])
     return Poly.sym(atom)
 
@@ -636,3 +640,114 @@ class Lin:
         for a, v in sorted(self.t.items(), key=lambda kv: repr(kv[0])):
             parts.append(('%s*' % _cstr(v) if v != 1 else '') + _astr(a))
         return ' + '.join(parts).replace('+ -', '- ')
+
+
+# ---------------------------------------------------------------------------
+# Data dependent counts.  ``COUNT_LEN[atom]`` = length of the boolean mask the
+# fresh count atom counts the True entries of (0 <= count <= length).
+
+
+def leaf_atoms(p, acc=None):
+    """Atoms that are not operator applications (free symbols, fresh data
+    dependent atoms), looking through min / max / join / deep / arithmetic
+    atoms."""
+    acc = set() if acc is None else acc
+    for a in Poly.coerce(p).atoms():
+        _leaves(a, acc)
+    return acc
+
+
+_OPS = ('min', 'max', 'join', 'floordiv', 'mod', 'pow2', 'int')
+
+
+def _leaves(a, acc):
+    if isinstance(a, tuple) and a and a[0] == 'deep' and a in _DEEP_SRC:
+        _leaves(_DEEP_SRC[a], acc)
+    elif isinstance(a, tuple) and a and a[0] in _OPS:
+        for x in a[1:]:
+            if isinstance(x, Poly):
+                leaf_atoms(x, acc)
+    else:
+        acc.add(a)
+
+
+def data_dependent(p):
+    """Does the value depend on a data dependent count (number of singular
+    values below a threshold, number of selected samples, ...)?  Such a value
+    takes different values for different admissible inputs of one shape."""
+    return any(isinstance(a, tuple) and a and a[0] in ('count', 'where',
+                                                      'mask', 'uniq')
+               for a in leaf_atoms(p))
+
+
+def peval(p, val):
+    """Value of p (Fraction) under the valuation ``val`` of its leaf atoms;
+    min / max / floordiv / mod / pow2 atoms are evaluated, ``join`` atoms and
+    unvalued leaves give None."""
+    p = Poly.coerce(p)
+    tot = Fraction(0)
+    for m, c in p.t.items():
+        term = Fraction(c)
+        for a, e in m:
+            v = _aeval(a, val)
+            if v is None:
+                return None
+            term *= v ** e
+        tot += term
+    return tot
+
+
+def _aeval(a, val):
+    if a in val:
+        return Fraction(val[a])
+    if isinstance(a, tuple) and a and a[0] == 'deep' and a in _DEEP_SRC:
+        return _aeval(_DEEP_SRC[a], val)
+    if isinstance(a, tuple) and a and a[0] in ('min', 'max'):
+        vs = [peval(x, val) for x in a[1:]]
+        if any(v is None for v in vs):
+            return None
+        return min(vs) if a[0] == 'min' else max(vs)
+    if isinstance(a, tuple) and a and a[0] in ('floordiv', 'mod') and \
+            len(a) == 3:
+        x, y = peval(a[1], val), peval(a[2], val)
+        if x is None or y is None or y == 0:
+            return None
+        q = x // y
+        return Fraction(q) if a[0] == 'floordiv' else x - q * y
+    if isinstance(a, tuple) and a and a[0] == 'pow2' and len(a) == 2:
+        x = peval(a[1], val)
+        if x is None or x.denominator != 1 or not (0 <= x <= 62):
+            return None
+        return Fraction(2 ** int(x))
+    return None
+
+
+def psubst(p, atom, q):
+    """p with the leaf ``atom`` replaced by the polynomial q (also inside
+    min / max / join atoms)."""
+    p = Poly.coerce(p)
+    q = Poly.coerce(q)
+    out = Poly.const(0)
+    for m, c in p.t.items():
+        term = Poly.const(c)
+        for a, e in m:
+            term = term * (_asubst(a, atom, q) ** e)
+        out = out + term
+    return out
+
+
+def _asubst(a, atom, q):
+    if a == atom:
+        return q
+    if isinstance(a, tuple) and a and a[0] == 'deep' and a in _DEEP_SRC:
+        src = _DEEP_SRC[a]
+        acc = set()
+        _leaves(src, acc)
+        if atom not in acc:
+            return Poly.sym(a)
+        return _asubst(src, atom, q)
+    if isinstance(a, tuple) and a and a[0] in ('min', 'max', 'join'):
+        args = [psubst(x, atom, q) if isinstance(x, Poly) else x
+                for x in a[1:]]
+        return fn_atom(a[0], *args)
+    return Poly.sym(a)
